@@ -316,7 +316,7 @@ func (e *Engine) solveAll(obls []*Obligation, axiomsFor func(o *Obligation) []ax
 			if o.Result == "unsat" {
 				if opt.useCache {
 					data, _ := json.Marshal(cacheEntry{o.Result, o.Solver, o.Seconds})
-					os.WriteFile(filepath.Join(opt.cacheDir, o.SMTHash+".json"), data, 0o644)
+					writeFileAtomic(filepath.Join(opt.cacheDir, o.SMTHash+".json"), data)
 				}
 				os.Remove(path)
 				o.SMTPath = ""
